@@ -29,8 +29,11 @@ def make_driver(d):
 
 
 def names(p):
-    ins = sorted(p.model.get_io_metadata(iotypes=('input',), return_rel_names=False))
-    outs = sorted(p.model.get_io_metadata(iotypes=('output',), return_rel_names=False))
+    """absolute names of the continuous inputs and outputs"""
+    mi = p.model.get_io_metadata(iotypes=('input',), return_rel_names=False)
+    mo = p.model.get_io_metadata(iotypes=('output',), return_rel_names=False)
+    ins = sorted(n for n, m in mi.items() if not m.get('discrete'))
+    outs = sorted(n for n, m in mo.items() if not m.get('discrete'))
     return ins, outs
 
 
@@ -70,6 +73,8 @@ def handle(c):
         p.setup()
         if c.get('lagging') and '' in spec.get('solvers', {}):
             p.model.nonlinear_solver.add_recorder(rec)
+        for path in c.get('sub_recorders', []):
+            p.model._get_subsystem(path).add_recorder(rec)
         kmodels.set_init(p, spec)
         free = sorted(spec.get('init', {}))
         n = spec['comps'][0]['n']
@@ -81,7 +86,7 @@ def handle(c):
             elif r == 'set':
                 for nm in free:
                     if rnd.random() < 0.7:
-                        p.set_val(nm, [rnd.choice([-2, -0.75, 0.25, 1.5, 4, 7.125]) for _ in range(n)])
+                        p.set_val(nm, [rnd.choice([-2, -0.75, 0.25, 1.5, 4, 7.125]) for _ in spec['init'][nm]])
             elif r.startswith('record:'):
                 p.record(r[7:])
         p.cleanup()
@@ -105,7 +110,7 @@ def handle(c):
         dirty = rnd.random() < 0.6
         if dirty:
             for nm in free:
-                q.set_val(nm, [rnd.choice([-3.5, 0.125, 9, 2.75, -1.25]) for _ in range(n)])
+                q.set_val(nm, [rnd.choice([-3.5, 0.125, 9, 2.75, -1.25]) for _ in spec['init'][nm]])
             q.run_model()
         else:
             q.final_setup()
@@ -113,9 +118,9 @@ def handle(c):
         conns = {i: q.model.get_source(i) for i in ins}
         b_in, b_out = snapshot(q, ins, outs)
         cin = [(k, np.asarray(case.inputs[k], dtype=float).ravel()) for k in
-               (list(case.inputs.absolute_names()) if case.inputs is not None else [])]
+               (list(case.inputs.absolute_names()) if case.inputs is not None else []) if k in conns]
         cout = [(k, np.asarray(case.outputs[k], dtype=float).ravel()) for k in
-                (list(case.outputs.absolute_names()) if case.outputs is not None else [])]
+                (list(case.outputs.absolute_names()) if case.outputs is not None else []) if k in set(outs)]
         try:
             q.load_case(case)
             a_in, a_out = snapshot(q, ins, outs)
